@@ -87,6 +87,19 @@ PROPS["C17"] = {
     "exhaustive_counter": "single_scalar_values", "exhaustive_text": "all 1,112,063 non-NUL Unicode scalar values as one-character patterns; all pairs over the syntax-relevant characters",
 }
 
+PROPS["C18"] = {
+    "engine": "wire", "level": "exploration", "evaluations": ["batches"],
+    "rule": "one evaluation = one batch of events written by the real DevInputWriter into a pipe (bytes compared with records built from libc::input_event), then decoded back by the real DevInputReader twice: the writer's own bytes, and the same key records with foreign records "
+            "(value 2, EV_MSC, EV_SYN, EV_REL, EV_LED, EV_REP, unknown codes, odd values) interleaved; exhaustive over all key codes x {press, release} alone and paired with a neighbour, plus the empty batch and seeded random batches of up to 2000 events; distinct = distinct batches",
+    "floors": {"quick": {"exhaustive_single": 968, "foreign_records_interleaved": 10000, "codes_matched_against_kernel_header": 300},
+               "thorough": {"exhaustive_single": 968, "foreign_records_interleaved": 100000, "codes_matched_against_kernel_header": 300}},
+    "assumptions": ["a pipe stands in for /dev/uinput and for the evdev node (no ioctl is involved in send/next)", "struct layout taken from the libc crate for this target"],
+    "level_text": "Byte oracle from libc::input_event on everything the real writer emits, decode-back through the real reader, exhaustive over the 484 key codes, sampled over batch shapes and interleavings.",
+    "level_note": "Trusted: libc's struct input_event, the verif_from_fd constructor hook, the transcription of kernel key codes from the uinput-sys crate used to cross-check the numeric codes.",
+    "design_ref": "3 C18", "technique": "runtime monitoring: byte-level oracle on a pipe + decode-back differential, exhaustive over key codes",
+    "exhaustive_counter": "exhaustive_single", "exhaustive_text": "all key codes the enum knows x {press, release}, alone and in pairs with a neighbour",
+}
+
 ENGINES = [
     {"name": "mapper", "path": "/verif/harness/src/mapper_mon.rs", "serves_properties": ["C01", "C02", "C03", "C04", "C05", "C06", "C07", "C08", "C09", "C19"],
      "kind_free_text": "online monitors around Mapper::step/release_all; seeded random walks with frontier restarts from hook snapshots"},
@@ -94,6 +107,8 @@ ENGINES = [
      "kind_free_text": "the real per-device loop under a scripted world (virtual clock, boundary log, fault injection) + offline log checker"},
     {"name": "systemd", "path": "/verif/harness/src/systemd_mon.rs", "serves_properties": ["C17"],
      "kind_free_text": "real build_service_text output decoded by an independent ExecStart decoder"},
+    {"name": "wire", "path": "/verif/harness/src/wire_mon.rs", "serves_properties": ["C18"],
+     "kind_free_text": "real DevInputWriter/DevInputReader over a pipe with a libc::input_event byte oracle"},
 ]
 
 NOT_APPLICABLE = [
